@@ -37,10 +37,16 @@ func (e *Engine) emit(o *Oblig, lambda bool, withModel bool) string {
 	for _, f := range e.facts[:o.nfacts] {
 		symbolsOf(f.t.s, need)
 	}
+	for _, f := range e.gfacts {
+		symbolsOf(f.t.s, need)
+	}
 	for _, f := range o.extraFacts {
 		symbolsOf(f.s, need)
 	}
-	defs := e.defs[:o.ndefs]
+	for _, f := range o.xFacts {
+		symbolsOf(f.t.s, need)
+	}
+	defs := append(append([]Def(nil), e.defs[:o.ndefs]...), o.xDefs...)
 	for i := len(defs) - 1; i >= 0; i-- {
 		d := defs[i]
 		if need[d.name] && d.body != "" {
@@ -77,15 +83,21 @@ func (e *Engine) emit(o *Oblig, lambda bool, withModel bool) string {
 			fmt.Fprintf(&b, "(define-fun %s () %s %s)\n", d.name, d.sort, d.body)
 		}
 	}
+	for _, f := range e.gfacts {
+		fmt.Fprintf(&b, "(assert %s)\n", f.t.s)
+	}
 	for _, f := range e.facts[:o.nfacts] {
 		fmt.Fprintf(&b, "(assert %s)\n", f.t.s)
 	}
 	for _, f := range o.extraFacts {
 		fmt.Fprintf(&b, "(assert %s)\n", f.s)
 	}
+	for _, f := range o.xFacts {
+		fmt.Fprintf(&b, "(assert %s)\n", f.t.s)
+	}
 	// ground extensionality for the string identities in the cone: distinct identities differ in length or in a byte
 	var ids []T
-	for _, id := range e.strIDs {
+	for _, id := range append(append([]T(nil), e.strIDsAt(o)...), o.xStrIDs...) {
 		if need[id.s] {
 			ids = append(ids, id)
 		}
@@ -336,3 +348,6 @@ func solveAll(results []*FuncResult, dir string, timeoutS int, workers int, cros
 		}
 	}
 }
+
+// strIDsAt: string identities that existed when the obligation was created (global list; scoped ones are attached).
+func (e *Engine) strIDsAt(o *Oblig) []T { return e.strIDs }
